@@ -236,7 +236,10 @@ class HybridCache(_CacheBase):
             True if the key is present in the cache, otherwise False.
 
         """
-        return key in self._cache_dict
+        # Under the lock: `put` and `clear` update several containers one after
+        # the other, another process must not see the states in between.
+        with self._cache_lock:
+            return key in self._cache_dict
 
     def __str__(self) -> str:
         """Return a string representation of the HybridCache.
@@ -256,7 +259,8 @@ class HybridCache(_CacheBase):
 
     def __len__(self) -> int:
         """Return the number of entries in the cache."""
-        return len(self._cache_dict)
+        with self._cache_lock:
+            return len(self._cache_dict)
 
 
 def _maybe_load(value: bytes | str, allow_cloudpickle: bool) -> Any:  # noqa: FBT001
@@ -338,7 +342,10 @@ class LRUCache(_CacheBase):
 
     def __contains__(self, key: Hashable) -> bool:
         """Check if a key is present in the cache."""
-        return key in self._cache_dict
+        # Under the lock: `put` stores the new entry before it evicts the oldest,
+        # another process must not see the state in between.
+        with self._cache_lock:
+            return key in self._cache_dict
 
     @property
     def cache(self) -> dict:
@@ -351,7 +358,8 @@ class LRUCache(_CacheBase):
 
     def __len__(self) -> int:
         """Return the number of entries in the cache."""
-        return len(self._cache_dict)
+        with self._cache_lock:
+            return len(self._cache_dict)
 
     def clear(self) -> None:
         """Clear the cache."""
